@@ -65,15 +65,22 @@ def cascades (O : Ops K) (t : K) (n : Node) : List Node → Prog K (U K) Node
   | [] => .done
   | m :: ms => if m = n then cascades O t n ms else cascade O t m (cascades O t n ms)
 
+/-- the world after the log entry of a firing has been written and the pop order taken -/
+def logged (u : U K) (t : K) (n : Node) (rest : List (List Node)) : U K :=
+  { u with ftimes := u.ftimes ++ [t], fnodes := u.fnodes ++ [n], perms := rest }
+
+/-- the rest of `fired` after the node itself has been re-scheduled: log, then bump the neighbours in the observed order -/
+def firedTail (O : Ops K) (t : K) (n : Node) : Prog K (U K) Node :=
+  .get fun u =>
+    match u.perms with
+    | [] => fail "pop order of the bumped set expected"
+    | order :: rest =>
+      if !(order.isPerm ((u.adj n).eraseDups.filter (· != n))) then fail "observed pop order is not a permutation of the neighbours"
+      else .put (logged u t n rest) (cascades O t n order)
+
 /-- the event `fired(t, n)` -/
 def fired (O : Ops K) (t : K) (n : Node) : Prog K (U K) Node :=
-  setFT n (O.fireAt t O.zero) <|
-    .get fun u =>
-      match u.perms with
-      | [] => fail "pop order of the bumped set expected"
-      | order :: rest =>
-        if !(order.isPerm ((u.adj n).eraseDups.filter (· != n))) then fail "observed pop order is not a permutation of the neighbours"
-        else .put { u with ftimes := u.ftimes ++ [t], fnodes := u.fnodes ++ [n], perms := rest } (cascades O t n order)
+  setFT n (O.fireAt t O.zero) (firedTail O t n)
 
 /-- `initialisePhases()` -/
 def initPhases (O : Ops K) : List Node → Prog K (U K) Node
